@@ -223,6 +223,9 @@ def _strategy(klass, depth, presence, nested):
         parts = {}
         for e in klass.sequenceElements:
             s = strategy(e.klass, depth - 1)
+            if klass.__name__ == "NameValue" and e.name == "value":
+                # BACnetNameValue: the value is any primitive, or a date followed by a time (a BACnetDateTime without any bracket)
+                s = st.one_of(s, s, st.tuples(atomic_strategy(L.P.Date), atomic_strategy(L.P.Time)).map(lambda t: {"atomic": ["DateTime", [t[0], t[1]]]}))
             if e.optional:
                 force = presence(e.name) if presence else None
                 if force is True:
@@ -325,6 +328,8 @@ def to_lib(klass, plain):
     if is_arrayof(klass):
         return klass([to_lib(klass.subtype, p) for p in plain["list"]])
     if issubclass(klass, C.AnyAtomic):
+        if plain["atomic"][0] == "DateTime":
+            return L.B.DateTime(date=atomic_to_lib(L.P.Date, plain["atomic"][1][0]), time=atomic_to_lib(L.P.Time, plain["atomic"][1][1]))
         ak = getattr(L.P, plain["atomic"][0])
         return ak(atomic_to_lib(ak, plain["atomic"][1]))
     if atomic_kind(klass) is not None:
@@ -372,6 +377,8 @@ def normalize(klass, plain):
     if is_seqof(klass) or is_listof(klass) or is_arrayof(klass):
         return {"list": [normalize(klass.subtype, p) for p in plain["list"]]}
     if issubclass(klass, C.AnyAtomic):
+        if plain["atomic"][0] == "DateTime":
+            return {"atomic": ["DateTime", [normalize(L.P.Date, plain["atomic"][1][0]), normalize(L.P.Time, plain["atomic"][1][1])]]}
         ak = getattr(L.P, plain["atomic"][0])
         return {"atomic": [plain["atomic"][0], normalize(ak, plain["atomic"][1])]}
     k = atomic_kind(klass)
@@ -417,6 +424,8 @@ def from_lib(klass, x, any_hint=None):
         return {"list": [from_lib(klass.subtype, it, hints[i] if hints and i < len(hints) else None) for i, it in enumerate(items)]}
     if issubclass(klass, C.AnyAtomic):
         v = x.value if isinstance(x, C.AnyAtomic) else x
+        if isinstance(v, L.B.DateTime):
+            return {"atomic": ["DateTime", [atomic_from_lib(L.P.Date, v.date), atomic_from_lib(L.P.Time, v.time)]]}
         ak = None
         for kname in ATOMIC_KINDS:
             if type(v).__name__ == kname or isinstance(v, getattr(L.P, kname)):
@@ -488,6 +497,12 @@ def ref_encode(tname, table, plain, context=None):
     if k == "atomic":
         kind, v = ref_atomic(d, plain, table)
         return R.encode_primitive(kind, v, context)
+    if k == "anyatomic" and plain["atomic"][0] == "DateTime":
+        ensure_atomic(table, "Date")
+        ensure_atomic(table, "Time")
+        if context is not None:
+            raise R.Reject("any atomic cannot be context tagged")
+        return ref_encode("primitivedata.Date", table, plain["atomic"][1][0], None) + ref_encode("primitivedata.Time", table, plain["atomic"][1][1], None)
     if k == "anyatomic":
         sub = "primitivedata.%s" % plain["atomic"][0]
         ensure_atomic(table, plain["atomic"][0])
